@@ -21,6 +21,27 @@ DEFAULT_TIMING = dict(tRP=3, tRCD=3, tWR=3, tWTR=2, tREFI=400, tRFC=8, tFAW=None
 RATE_OF = {"SDR": "1:1", "DDR": "1:2", "LPDDR": "1:2", "DDR2": "1:2", "DDR3": "1:4", "DDR4": "1:4"}
 
 
+def module_phy(memtype, nphases, databits, clk_freq):
+    """PHY settings for a library module at a given rate: the repository's own simulation-PHY settings function
+    when the rate is that function's native one, else the same formulas with the requested phase count."""
+    from litedram.phy.model import sdram_module_nphases
+    from litedram.common import get_default_cl_cwl, get_sys_latency, get_sys_phase
+    if sdram_module_nphases[memtype] == nphases:
+        return get_sdram_phy_settings(memtype, databits, clk_freq)
+    if memtype == "SDR":
+        # half-rate SDR as HalfRateGENSDRPHY declares it (burst of nphases beats, one per phase)
+        return make_phy("SDR", nphases, databits, rdphase=0, wrphase=0, cl=2, read_latency=4, write_latency=0)
+    if memtype in ("DDR", "LPDDR"):
+        raise ValueError("DDR/LPDDR are only used at 1:2")
+    tck = 1 / (nphases * clk_freq)
+    cl, cwl = get_default_cl_cwl(memtype, tck)
+    cls_, cwls = get_sys_latency(nphases, cl), get_sys_latency(nphases, cwl)
+    bl = burst_lengths[memtype]
+    return make_phy(memtype, nphases, databits, rdphase=get_sys_phase(nphases, cls_, cl),
+                    wrphase=get_sys_phase(nphases, cwls, cwl), cl=cl, cwl=cwl, read_latency=cls_ + 6,
+                    write_latency=max(cwls - 1, 0), dfi_mult=bl // nphases)
+
+
 def build_settings(mem):
     """mem: JSON-able description -> (phy, geom, timing, clk_freq, module or None)."""
     if mem["kind"] == "module":
@@ -36,14 +57,7 @@ def build_settings(mem):
         nphases = int(rate.split(":")[1])
         databits = mem.get("databits", 16)
         memtype = cls.memtype
-        if memtype == "SDR" and nphases == 1:
-            phy = get_sdram_phy_settings(memtype, databits, clk_freq)
-        elif memtype == "SDR":
-            # half-rate SDR as HalfRateGENSDRPHY declares it
-            phy = make_phy("SDR", 2, databits, rdphase=0, wrphase=0, cl=2, read_latency=4 // 2 + 2, write_latency=0)
-        else:
-            phy = get_sdram_phy_settings(memtype, databits, clk_freq)
-            assert phy.nphases == nphases, (phy.nphases, nphases)
+        phy = module_phy(memtype, nphases, databits, clk_freq)
         phy.nranks = mem.get("nranks", 1)
         for k in ("rdphase", "wrphase", "read_latency", "write_latency"):
             if mem.get(k) is not None:
